@@ -374,7 +374,7 @@ func main() {
 	defer os.RemoveAll(workdir)
 	rng := o.Rng()
 	res := hx.NewResult("C01", "oracle: generated histories (initial cluster + 1..5 batches of 1..3 changes over Ingress/IngressClass/Service/Endpoints/Secret/ConfigMap/Pod, with second events for one object inside a batch) through the real watchers+converter+instance, behaviour of the written files vs a fresh pipeline; correspondence: histories in the model's feature subset, every reconciliation compared with coq/Model/Conv.v; non-trivial = at least one partial reconciliation that changed a host or backend; distinct by history text")
-	cw := hx.NewCaseWriter(o, res, "From HI Require Import Corr.Corr_C01.", "ccase", 15)
+	cw := hx.NewCaseWriter(o, res, "From HI Require Import Corr.Corr_C01.", "acase", 15)
 
 	var histories [][][]pipeline.Change
 	var isCorpus []bool
@@ -516,8 +516,26 @@ func main() {
 		}
 		st := steps
 		cw.Add(func(id int) string {
-			return fmt.Sprintf("{| cid := %s; csteps := %s |}", hx.N(id), hx.List(st))
+			return fmt.Sprintf("CH {| cid := %s; csteps := %s |}", hx.N(id), hx.List(st))
 		}, map[string]interface{}{"history": world.EncodeHistory(h), "steps": jsteps})
+	}
+	// ---- the tracker alone ----
+	if o.Replay == "" {
+		nt := o.Count(400, 20000)
+		for i := 0; i < nt; i++ {
+			term, js, fail := trackerCase(rng)
+			res.Seen(fmt.Sprintf("tracker:%v", js), len(js) > 5)
+			res.Count("tracker_cases")
+			res.OracleChecks++
+			if fail != "" {
+				res.Count("oracle_fail_tracker")
+				res.Fail(hx.Failure{Key: "C01/tracker-query-links", What: fail, Input: js})
+			}
+			if !o.Search {
+				t := term
+				cw.Add(func(id int) string { return fmt.Sprintf("CT {| tid := %s; tops := %s |}", hx.N(id), t) }, js)
+			}
+		}
 	}
 	cw.Flush()
 	res.Write(o)
